@@ -18,32 +18,55 @@ PID = "C09"
 ALARM = 5
 
 
-class Hang(Exception):
+class Hang(BaseException):      # BaseException: the library's `except Exception` handlers must not swallow the alarm
     pass
 
 
+_armed = False
+_hangs = 0          # confirmed hangs seen by this worker process
+MAX_HANGS = 3       # after that many, the remaining cases of this worker are skipped (the violation is already established)
+
+
 def _alarm(signum, frame):
-    raise Hang()
+    if _armed:
+        raise Hang()
 
 
-def timed(fn, budget=ALARM):
+def _once(fn, budget):
     """Run fn under a CPU-time alarm of this process (ITIMER_VIRTUAL): a spinning loop burns CPU and trips it,
     a descheduled worker on a busy machine does not (wall-clock alarms raised false alarms under load)."""
+    global _armed
     signal.signal(signal.SIGVTALRM, _alarm)
     signal.setitimer(signal.ITIMER_VIRTUAL, budget, 0.5)   # repeating: a firing swallowed inside a GC callback is followed by another
     try:
-        r = fn()
-    except Hang:
+        try:
+            _armed = True
+            r = fn()
+            _armed = False
+        except Hang:
+            _armed = False
+            r = {"err": "HANG", "liquid": False}
+    except Hang:                                           # a second firing in the window before the flag was cleared
+        _armed = False
         r = {"err": "HANG", "liquid": False}
     finally:
+        _armed = False
         signal.setitimer(signal.ITIMER_VIRTUAL, 0)
-    if isinstance(r, dict) and r.get("err") in ("HANG", "Hang") or (isinstance(r, dict) and "Hang" in str(r.get("detail", ""))):
-        if budget == ALARM:
-            # a real non-terminating loop hangs every time; a collector pause or a busy machine does not: confirm alone, generously
-            import gc
-            gc.collect()
-            return timed(fn, budget=6 * ALARM)
-        return {"err": "HANG", "liquid": False}
+    return r
+
+
+def timed(fn, budget=ALARM):
+    global _hangs
+    if _hangs >= MAX_HANGS:
+        return {"err": "SKIPPED", "liquid": True}
+    r = _once(fn, budget)
+    if isinstance(r, dict) and r.get("err") == "HANG":
+        # a real non-terminating loop hangs every time; a collector pause or a busy machine does not: confirm alone, generously
+        import gc
+        gc.collect()
+        r = _once(fn, 4 * budget)
+        if isinstance(r, dict) and r.get("err") == "HANG":
+            _hangs += 1
     return r
 
 
@@ -71,9 +94,46 @@ def concretize(g):
     return tmpl
 
 
+_lv = {"d": 0, "m": 0}
+LIMIT = 30          # context_depth_limit (Recursion.tmpl: Limit)
+
+
+def _install_level_probe():
+    """Observed counterpart of Recursion.tla's `level`: nesting of partial renders (render_with_context(partial=True))."""
+    from liquid.template import BoundTemplate
+    from .. import instrument
+
+    def mk(orig):
+        def f(self, context, buffer, *a, partial=False, block_scope=False, **k):
+            if partial:
+                _lv["d"] += 1
+                _lv["m"] = max(_lv["m"], _lv["d"])
+            try:
+                return orig(self, context, buffer, *a, partial=partial, block_scope=block_scope, **k)
+            finally:
+                if partial:
+                    _lv["d"] -= 1
+        return f
+
+    def mka(orig):
+        async def f(self, context, buffer, *a, partial=False, block_scope=False, **k):
+            if partial:
+                _lv["d"] += 1
+                _lv["m"] = max(_lv["m"], _lv["d"])
+            try:
+                return await orig(self, context, buffer, *a, partial=partial, block_scope=block_scope, **k)
+            finally:
+                if partial:
+                    _lv["d"] -= 1
+        return f
+    instrument.wrap(BoundTemplate, "render_with_context", mk)
+    instrument.wrap(BoundTemplate, "render_with_context_async", mka)
+
+
 def replay_graph(case):
     import time
     t0 = time.process_time()
+    _install_level_probe()
     tmpl = concretize(case["g"])
     env = harness.make_env(templates=tmpl)
     res = []
@@ -84,8 +144,15 @@ def replay_graph(case):
             except Exception as e:
                 return harness.classify(e)
             return harness.render(t, {}, how)
+        _lv["d"] = _lv["m"] = 0
         o = timed(go)
-        res.append((how, "ok" if "out" in o else o["err"], o.get("detail", "")))
+        got = "ok" if "out" in o else o["err"]
+        if got == "ContextDepthError":
+            exact = case.get("cut") in ("scope", "copy") and all(e["d"] == 0 for e in case["g"].values())
+            if _lv["m"] > 2 * LIMIT + 4 or (exact and _lv["m"] != case["level"]):
+                # Recursion.tla!LevelsBounded, and where no stack cut-off is involved the exact level at which the counters refuse
+                got = "ContextDepthError-after-%d-levels" % _lv["m"]
+        res.append((how, got, o.get("detail", "")))
     res.append(("cpu", time.process_time() - t0, ""))
     return tmpl, res
 
@@ -140,6 +207,9 @@ def run(tier: str) -> int:
             ck.cov["max_cpu_s_per_family"] = round(cpu, 3)
             ck.cov["slowest_family"] = case["g"]
         for how, got, detail in res:
+            if got == "SKIPPED":
+                ck.cov["skipped_after_hangs"] = ck.cov.get("skipped_after_hangs", 0) + 1
+                continue
             if got != case["status"]:
                 e1 = case["g"]["t1"]
                 ck.fail(f"render ends with {got}, Recursion.tla requires {case['status']}",
